@@ -365,6 +365,49 @@ def h_parallel(sym):
         sym.goal('some-failed')
 
 
+def h_parallel_never_raises(sym):
+    """`parallel never raises`: also when the problem is not an action that raises but the call itself -- an argument dictionary
+    that lacks the entry of a member (solver-chosen which), or a member thread that cannot be started."""
+    n = sym.B['size']
+    uris = URIS[:n]
+    kind = sym.choice('problem', 3)       # 0 none, 1 args_dict lacks the entry of one member, 2 a thread cannot be started
+    victim = sym.choice('victim', n)
+    fails = [sbool(sym, f'fail{i}') for i in range(n)]
+    args_dict = make_args(sym, uris, [1] * n)
+    if kind == 1:
+        del args_dict[uris[victim]]
+    env = Env(sym)
+    env.install()
+    import cflib.crazyflie.swarm as swarm_mod
+    ThreadCls = swarm_mod.Thread
+    started = []
+
+    class NoThreads(ThreadCls):
+        def start(self):
+            started.append(self)
+            if len(started) == victim + 1:
+                raise RuntimeError("can't start new thread")
+            return ThreadCls.start(self)
+    exc = None
+    try:
+        if kind == 2:
+            swarm_mod.Thread = NoThreads
+        swarm = Swarm(uris, factory=Factory(env, uris, lambda i, uri: FakeSCF(env, i, uri)))
+        try:
+            swarm.parallel(make_action(env, fails), args_dict)
+        except Exception as e:
+            exc = e
+    finally:
+        swarm_mod.Thread = ThreadCls
+        env.restore()
+    assert exc is None, f'parallel raised {type(exc).__name__}'
+    assert not env.escaped, 'an exception escaped a member thread unreported'
+    if kind == 0:
+        assert env.all_bodies_finished()
+        check_calls(env, n, uris, args_dict)
+    sym.goal(('no-problem', 'missing-args-entry', 'thread-start-failed')[kind])
+
+
 def h_twice(sym):
     """Two swarm-wide calls on the SAME Swarm object: the outcome of the second depends on the second only (raises iff one of ITS
     actions raised), each call runs every action once."""
@@ -587,6 +630,8 @@ HARNESSES = [
             thorough=dict(size=3, api='parallel_safe', args='empty'), timeout=(240, 900), goals=('clean', 'raised')),
     Harness('parallel', h_parallel, quick=dict(size=3, api='parallel'), thorough=dict(size=4, api='parallel'),
             timeout=(240, 1500), goals=('some-failed', 'reordered', 'finished-before-join')),
+    Harness('parallel[call-level problems]', h_parallel_never_raises, quick=dict(size=2), thorough=dict(size=3), symbolic=False,
+            goals=('no-problem', 'missing-args-entry', 'thread-start-failed'), timeout=(240, 900)),
     Harness('open_links[fake]', h_open_fake, quick=dict(size=3), thorough=dict(size=4), timeout=(240, 1500),
             goals=_OG + ('reordered',), symbolic=False, note='all inputs are solver-chosen selectors (failing subset, schedule)'),
     Harness('open_links[with]', h_open_fake, quick=dict(size=2, ctx=True), thorough=dict(size=3, ctx=True), timeout=(240, 900),
